@@ -43,11 +43,12 @@ CHECKS['C17'] = dict(
     level=MC, engine='seqx',
     technique='bounded-exhaustive enumeration of buffers (length x alignment x content, every byte value at every position) on all three CRC entry points against a bit-at-a-time reference',
     text='Both implementations (SSE4.2 instructions and slicing-by-8 tables) and the public wrapper are called directly on every length 0..1100 at every alignment, on every byte value at every position of short buffers (which indexes every entry of all eight slicing tables) and on all 1-2 byte (thorough: 3 byte) buffers, and compared with a bit-wise Castagnoli reference and the standard check value.',
-    jobs=[dict(name='crc', spec=H('h_crc.c', 'asan'), args=[])],
+    jobs=[dict(name='crc', spec=H('h_crc.c', 'asan'), args=[]),
+          dict(name='all-4-byte-buffers', spec=H('h_crc.c', 'fast'), args=['four'], tiers=['thorough'])],
     states_key='cases', transitions_key='transitions', traces_key='cases',
     rule='one case = (content family, length, alignment, patched position, value); signature = (min(len,24+len%8), alignment, family)',
     bounds={'quick': 'len 0..1100 x align 0..7 x 6 families; every value at every position of len 1..16 (rest 00 / ff) x align 0..7; all 1- and 2-byte buffers',
-            'thorough': 'len 0..4200, 2^k+-1 up to 2^22; positions in len 1..40; all 3-byte buffers'},
+            'thorough': 'len 0..4200, 2^k+-1 up to 2^22; positions in len 1..40; all 3-byte buffers; ALL 2^32 4-byte buffers'},
     nonzero=['cases', 'sse42_available'],
     assumptions=['host CPU offers SSE4.2 (otherwise the hardware path cannot run; the check then fails its vacuity guard rather than pass silently)'],
     budget={'quick': 200, 'thorough': 1500},
